@@ -150,7 +150,9 @@ QueryEndReason(rec) ==
   ELSE
   LET spec == QueryAnswers(cur, Fuel)
       impl == [i \in 1..Len(got) |-> ImplAnswer(got[i])]
-  IN SeqReasons(spec.answers, spec.cut, impl, AnsEquiv, rec)
+  IN IF \E i \in 1..Len(impl) : \E c \in impl[i].cs : ~Acyclic(c[2])
+     THEN {"malformed_constraint"}   \* a reported disequality binds a variable to a term containing it
+     ELSE SeqReasons(spec.answers, spec.cut, impl, AnsEquiv, rec)
 
 (* end of a solver case: emitted states against the reference semantics *)
 StateEquiv(a, b) ==
@@ -194,7 +196,12 @@ GroupReasons(rec) ==
       RECURSIVE Cat(_)
       Cat(i) == IF i > Len(h) THEN <<>> ELSE h[i].res \o Cat(i + 1)
   IN
-  IF \E i \in 1..Len(h) : h[i].kind # "exhausted" /\ h[i].kind # "take" THEN {}
+  IF \E i \in 2..Len(h) : h[i].kind # h[1].kind THEN {"group_outcomes_differ"}
+  ELSE IF \E i \in 1..Len(h) : h[i].kind # "exhausted" /\ h[i].kind # "take" THEN {}
+  ELSE IF cur.gcheck \in {"same_bag", "same_seq"} /\ \E i \in 2..Len(h) : Len(h[i].res) # Len(h[1].res)
+  THEN {IF cur.gcheck = "same_seq" THEN "group_sequences_differ" ELSE "group_bags_differ"}
+  ELSE IF cur.mode = "query" /\ \E i \in 1..Len(h) : \E n \in 1..Len(h[i].res) : \E c \in h[i].res[n].cs : ~Acyclic(c[2])
+  THEN {"malformed_constraint"}
   ELSE CASE cur.gcheck = "same_bag" ->
               One(IF \A i \in 2..Len(h) : BagEquiv(h[1].res, h[i].res, Eq) THEN "" ELSE "group_bags_differ")
          [] cur.gcheck = "same_seq" ->
